@@ -152,8 +152,8 @@ def c04(ctx: Ctx) -> None:
     ctx.rule('C04-B4', 'after normal exhaustion every remaining future is completed with an exception', 1)
     ctx.rule('C04-B5', 'no path through the batch task leaves a future unanswered', 1)
     ctx.rule('C04-B6', 'an answered future is removed from the per-batch dict before the sweeps', 1)
-    ctx.rule('C04-B7', 'callers await the future stored under their key', 2)
-    ctx.rule('C04-B8', 'the dispatcher spawns the batch task and does not await it; the semaphore is taken with async with', 2)
+    ctx.rule('C04-B7', 'callers await the future stored under their key', 1)
+    ctx.rule('C04-B8', 'the dispatcher spawns the batch task, never awaits it and never returns; the semaphore is taken with async with', 3)
     where = g.loc(r.batchcall)
     if r.kvar is None or r.batchfuts is None:
         ctx.violation('C04-B1', 'results are not matched through a per-batch key->future dict', where,
@@ -292,6 +292,10 @@ def c04(ctx: Ctx) -> None:
                   'a caller does not await its key\'s future', construct=construct_key(r.call.qualname, n.ast))
     # B8
     _rule_dispatch(ctx, r, 'C04-B8')
+    # B9: B5's typestate argument assumes a batch never carries a key twice (the per-batch dict would
+    # silently drop one future): discharged by the lookup-or-create obligations of C11
+    ctx.rule('C04-B9', 'a batch never carries a key twice: atomic lookup-or-create, miss-only enqueue, sharers never evict (= C11-R1/R2/R4)', 3)
+    ctx.adopt(c11, {'C11-R1', 'C11-R2', 'C11-R4'}, 'C04-B9', 'a duplicated key loses a future in the per-batch dict: its caller is never answered')
     r.publish(ctx)
 
 
@@ -307,6 +311,11 @@ def _rule_dispatch(ctx: Ctx, r: BatcherRoles, rule: str) -> None:
               bool(spawn) and not awaited, 'spawned, not awaited: a failing or slow batch cannot stop the dispatcher',
               'the dispatcher awaits the batch (batches are serialised; a failing batch kills the dispatcher)',
               construct=construct_key(r.dispatch.qualname, 'dispatch'))
+    heads = [n for n in gd.nodes if n.kind == 'loop_head']
+    w = find_path(gd, [gd.entry], [gd.exit])
+    ctx.check(rule, 'the dispatcher loop has no normal exit', f'{FILE}:{r.dispatch.lineno}', w is None and bool(heads),
+              'it serves until it is cancelled', 'the dispatcher can return: every later call is enqueued and never answered',
+              witness=render(gd, w), construct=construct_key(r.dispatch.qualname, 'dispatcher returns'))
     g = r.gproc
     sem_with = [n for n in g.nodes if n.kind == 'with_enter' and n.meta.get('is_async') and self_attr(n.ast) == r.sem]
     manual = [n for f in r.p.all_functions() for n in build(f, r.p).nodes if n.kind == 'call'
@@ -342,10 +351,10 @@ def c09(ctx: Ctx) -> None:
     r = BatcherRoles(ctx)
     gc, g = r.gcall, r.gproc
     ctx.trusted += ['Task.cancel() cancels the future the task is awaiting; asyncio.shield semantics']
-    ctx.rule('C09-R1', 'every await of a future shared through the retention cache is behind a cancellation barrier (asyncio.shield / proxy)', 2)
+    ctx.rule('C09-R1', 'every await of a future shared through the retention cache is behind a cancellation barrier (asyncio.shield / proxy)', 1)
     ctx.rule('C09-R2', 'every completion of a caller future is guarded by its state, or no await can cancel it (R1)', 3)
     ctx.rule('C09-R3', 'no completion that may raise lies inside the try whose handler fans the batch failure out, nor unprotected inside that handler', 1)
-    ctx.rule('C09-R5', 'the dispatcher keeps serving (= C04-B8)', 2)
+    ctx.rule('C09-R5', 'the dispatcher keeps serving (= C04-B8): spawns, never awaits, never returns', 3)
     # R1
     shared = set()
     for n in gc.nodes:
@@ -523,6 +532,9 @@ def c10(ctx: Ctx) -> None:
                       'so the batch function is not reached (tabled exception)',
                       'an empty batch can be handed to the batch function', witness=render(g, w),
                       construct=construct_key(r.assemble.qualname, 'empty batch'))
+        elif isinstance(v, ast.ListComp) and any(gen.ifs for gen in v.generators):
+            ctx.violation('C10-R2', f'return {norm(v)}', g.loc(n), 'a filtered batch can be empty when handed on',
+                          construct=construct_key(r.assemble.qualname, 'filtered batch'))
         else:
             ctx.undecided('C10-R2', f'return {norm(v) if v is not None else None}', g.loc(n), 'unrecognised batch value')
     gp = r.gproc
@@ -651,14 +663,33 @@ def c11(ctx: Ctx) -> None:
     RET = r.ret
     lookups = [n for n in g.nodes if n.kind == 'load_sub' and self_attr(n.ast.value) == RET]
     stores = [n for n in g.nodes if n.kind == 'store_sub' and self_attr(n.ast.value) == RET]
+    miss = [e for n in lookups for e in g.succ[n.id] if e.label == 'exc']
+    hit = [e for n in lookups for e in g.succ[n.id] if e.label != 'exc']
+    # `x = RET.get(key)` + a None test on x is an equivalent lookup form
+    for n in g.nodes:
+        if n.kind == 'store_name' and isinstance(n.meta.get('value'), ast.Call) and isinstance(n.meta['value'].func, ast.Attribute) \
+                and n.meta['value'].func.attr == 'get' and self_attr(n.meta['value'].func.value) == RET and len(n.meta['value'].args) == 1:
+            var = n.meta['name']
+            for b in g.nodes:
+                if b.kind != 'branch':
+                    continue
+                t = b.meta['test']
+                none_edge = None
+                if isinstance(t, ast.Compare) and len(t.ops) == 1 and isinstance(t.left, ast.Name) and t.left.id == var \
+                        and isinstance(t.comparators[0], ast.Constant) and t.comparators[0].value is None:
+                    none_edge = 'true' if isinstance(t.ops[0], ast.Is) else 'false' if isinstance(t.ops[0], ast.IsNot) else None
+                elif isinstance(t, ast.Name) and t.id == var:
+                    none_edge = 'false'
+                if none_edge:
+                    lookups.append(n)
+                    miss += [e for e in g.succ[b.id] if e.label == none_edge]
+                    hit += [e for e in g.succ[b.id] if e.label != none_edge and e.label in ('true', 'false')]
     if not lookups or not stores:
         ctx.violation('C11-R1', 'no lookup-or-create of a per-key future', f'{FILE}:{r.call.lineno}',
                       'every call adds work: a batch can carry a key twice', construct=construct_key(r.call.qualname, 'no lookup-or-create'))
         r.publish(ctx)
         return
-    keyv = {norm(n.ast.slice) for n in lookups + stores}
-    miss = [e for n in lookups for e in g.succ[n.id] if e.label == 'exc']
-    hit = [e for n in lookups for e in g.succ[n.id] if e.label != 'exc']
+    keyv = {norm(n.ast.slice) if n.kind != 'store_name' else norm(n.meta['value'].args[0]) for n in lookups + stores}
     # R1
     for s in stores:
         w = None
@@ -668,7 +699,8 @@ def c11(ctx: Ctx) -> None:
             if p1 is not None and find_path(g, [x], [s]) is not None:
                 w = p1 + (find_path(g, [x], [s]) or [])
                 break
-        w0 = must_pass(g, [g.entry], [s], [e.src for e in miss])
+        miss_ids = {id(e) for e in miss}
+        w0 = find_path(g, [g.entry], [s], edge_ok=lambda e: id(e) not in miss_ids)
         ctx.check('C11-R1', f'{norm(s.meta.get("stmt") or s.ast)} right after the miss', g.loc(s), w is None and w0 is None,
                   'lookup-or-create is atomic on the loop', 'two callers can both miss and both enqueue the key'
                   if w is not None else 'the future is stored without a preceding lookup',
